@@ -359,6 +359,8 @@ def hash_order_work(arg):
 
 
 def run(rep, tier):
+    from .. import scale
+    scale.run(rep, PROP, tier)          # size ladders (seedverif/scale.py): the entries that concern this property
     rng = core.rng_for(PROP)
     nprog = 900 if tier == "quick" else 12000
     jobs = []
